@@ -194,10 +194,14 @@ InitSnapLimitQuick ==
   \/ \E r \in {8, 16, 24, 32}, cont \in BoundedSeq(LimOps3, 2) : c = LimCaseC(Filler(r, 0), cont, <<"built", "bytes">>)
   \/ \E cont \in {<< >>, << [ty |-> U1, i |-> 0, d |-> <<>>] >>} : c = LimCaseC(Filler(24, 1), cont, <<"built", "bytes">>)
   \/ \E k \in {1, 2}, cont \in BoundedSeq(LimOps3, 2) : c = LimCase(FillerItems(k), cont)
-InitSnapLimitThorough ==
-  \/ \E r \in {0, 4, 8, 12, 16, 20, 24, 28, 32, 36, 40, 44, 56}, cont \in BoundedSeq(LimOps, 3) : c = LimCase(Filler(r, 0), cont)
+\* thorough, in two halves that are exported in parallel: (A) size limit, (B) maximal byte form and item limit
+InitSnapLimitThoroughA ==
+  \/ \E r \in {8, 16, 24, 32}, cont \in BoundedSeq(LimOps, 3) : c = LimCase(Filler(r, 0), cont)
+  \/ \E r \in {0, 4, 12, 20, 28, 36, 40, 44, 56}, cont \in BoundedSeq(LimOps, 2) : c = LimCase(Filler(r, 0), cont)
+InitSnapLimitThoroughB ==
   \/ \E r \in {0, 20, 24, 3280}, cont \in BoundedSeq(LimOps, 1) : c = LimCase(Filler(r, 1), cont)
-  \/ \E k \in {0, 1, 2, 3, 4}, cont \in BoundedSeq(LimOps, 3) : c = LimCase(FillerItems(k), cont)
+  \/ \E k \in {1, 2}, cont \in BoundedSeq(LimOps, 3) : c = LimCase(FillerItems(k), cont)
+  \/ \E k \in {0, 3, 4}, cont \in BoundedSeq(LimOps, 2) : c = LimCase(FillerItems(k), cont)
 \* on the model: the registry stays well-formed, the limits hold, the view is what was accepted, refused
 \* adds are errors of the limit kind, the integer form is read back equal
 LimitLaw == LET SB == BAddAll(NewBuilder, c.adds)
